@@ -435,6 +435,8 @@ MT_ENVS = {
     "prodcons": [{}],
     "heapdel": [{}],
     "exit": [{"MIMALLOC_VISIT_ABANDONED": "1"}, {"MIMALLOC_VISIT_ABANDONED": "1", "MIMALLOC_ABANDONED_RECLAIM_ON_FREE": "1"}, {"MIMALLOC_VISIT_ABANDONED": "1", "MIMALLOC_DISALLOW_ARENA_ALLOC": "1"},
+             {"MIMALLOC_VISIT_ABANDONED": "1", "MIMALLOC_DISALLOW_ARENA_ALLOC": "1", "MIMALLOC_ABANDONED_RECLAIM_ON_FREE": "1"}, {"MIMALLOC_ABANDONED_RECLAIM_ON_FREE": "1"},
+             {"MIMALLOC_VISIT_ABANDONED": "1", "MIMALLOC_TARGET_SEGMENTS_PER_THREAD": "2", "MIMALLOC_ABANDONED_RECLAIM_ON_FREE": "1"}, {"MIMALLOC_VISIT_ABANDONED": "1", "MIMALLOC_TARGET_SEGMENTS_PER_THREAD": "4"},
              {"MIMALLOC_VISIT_ABANDONED": "1", "MIMALLOC_TARGET_SEGMENTS_PER_THREAD": "2"}, {"MIMALLOC_VISIT_ABANDONED": "1", "MIMALLOC_MAX_SEGMENT_RECLAIM": "100", "MIMALLOC_ABANDONED_PAGE_PURGE": "1"}],
     "arena": [{}, {"MIMALLOC_PURGE_DELAY": "0"}, {"MIMALLOC_PURGE_DELAY": "1", "MIMALLOC_ARENA_PURGE_MULT": "1"}],
 }
@@ -587,6 +589,10 @@ def c02(tier, seed):
     for c in core.run_cases([c for c in tiny if c.exit is None]): pass
     for c in tiny: v.add(c)
     cases += tiny
+    # blocks handed between threads that terminate meanwhile: adoption of abandoned memory (reclaim on free, forced abandonment, OS segments) must not hand a block out twice either
+    ex = mt_cases(prop, "exit", tier, seed, n_baton=tier_n(tier, 400, 10000), n_par=tier_n(tier, 4, 40), n_tsan=tier_n(tier, 2, 20), start=700000)
+    for c in core.run_cases(ex): v.add(c)
+    cases += ex
     return mt_finish(prop, tier, seed, cases, v, t0,
                      "tiny programs: one owner allocates 2-9 blocks of one size class (64 B .. 16 KB, so that pages are full or nearly full), gives 1-2 of them to each of 2-3 freeing threads and then does "
                      "1-4 operations of its own (malloc / malloc+free / free / collect) while they free; afterwards it allocates the pages full again and verifies every block. Their schedules are enumerated, "
